@@ -24,7 +24,7 @@ extern "C" int __lsan_do_recoverable_leak_check();
 using namespace vh;
 
 namespace {
-struct Tally { long long mirror_requests = 0, unit_names_read = 0, exact_fills = 0, threshold = 0, factory_calls = 0, strings = 0, string_bytes = 0, pools = 0, printed_bytes = 0, units = 0, regions = 0, steps = 0; };
+struct Tally { long long refused = 0, mirror_requests = 0, unit_names_read = 0, exact_fills = 0, threshold = 0, factory_calls = 0, strings = 0, string_bytes = 0, pools = 0, printed_bytes = 0, units = 0, regions = 0, steps = 0; };
 
 // the workload of one Lexicon life; everything it allocates dies with this scope
 // the Lexicon of every ordinary life is built in this one storage slot (the address a constructor may have remembered)
@@ -128,6 +128,25 @@ void one_life(std::uint64_t seed, int flavour, Tally& T)
       }
       std::list<impl::Translation_unit> more;
       for (int u = 0; u < 5; ++u) { more.emplace_back(lex); more.back().global_scope()->make_typedecl(lex.get_identifier(u8"T"), L.class_type()); ++T.units; }
+   }
+   {  // requests the library refuses (each is documented to raise): the client catches and carries on.  Whatever a refused
+      // request had begun to build is returned with everything else when the Lexicon dies.
+      auto refused = [&](auto f) { try { f(); } catch (...) { ++T.refused; } };
+      const Type* base[] = { &L.int_type(), &lex.get_pointer(L.char_type()), &lex.get_qualified(Qualifiers(1 + rng.below(7)), L.double_type()), &lex.get_as_type(*lex.make_literal(L.int_type(), u8"7")) };
+      const int reps = 2 + int(rng.below(7));
+      for (int i = 0; i < reps; ++i) for (auto t : base) refused([&] { (void)&lex.get_qualified(Qualifiers{ }, *t); });
+      for (auto w : { u8"not-a-specifier", u8"int", u8"Const", u8"" }) {
+         refused([&] { (void)L.specifiers(Basic_specifier{ lex.get_logogram(lex.get_string(w)) }); });
+         refused([&] { (void)L.qualifiers(Basic_qualifier{ lex.get_logogram(lex.get_string(w)) }); });
+      }
+      auto& members = unit.global_scope()->elements();
+      for (std::size_t k : { members.size(), members.size() + 1, ~std::size_t(0) }) refused([&] { (void)&*members.position(k); });
+      { impl::Warehouse<Type> none; auto& p = lex.get_product(none); refused([&] { (void)&*p.operand().position(0); }); refused([&] { (void)&p[1]; }); }
+      refused([&] { (void)&lex.make_id_expr(lex.get_identifier(u8"untyped"))->type(); });
+      refused([&] { (void)&lex.make_phantom()->type(); });
+      refused([&] { (void)&lex.make_class(*unit.global_region())->name(); });
+      refused([&] { (void)&unit.global_scope()->make_var(lex.get_identifier(u8"no_initializer"), L.int_type())->initializer().get(); });
+      refused([&] { auto* cls = lex.make_class(*unit.global_region()); (void)&cls->declare_base(*cls)->initializer().get(); });
    }
    mirror();
    // what every unit of this life is named by (nodes the unit itself fetched from the Lexicon when it was built)
@@ -255,9 +274,9 @@ static void body(Ctx& C)
       if (C.total_viols >= 12 && i >= 3) { C.count("stopped_early_after_repeated_violations"); break; }
    }
    C.count("factory_calls", T.factory_calls); C.count("strings_interned", T.strings); C.count("string_bytes", T.string_bytes); C.count("string_pools_at_destruction", T.pools);
-   C.count("printed_bytes", T.printed_bytes); C.count("extra_units_and_module_units", T.units); C.count("nested_regions", T.regions); C.count("program_steps", T.steps); C.count("strings_at_allocator_threshold_lengths", T.threshold); C.count("lives_filling_string_pools_exactly", T.exact_fills); C.count("unit_names_read", T.unit_names_read); C.count("mirror_requests_at_both_ends_of_a_life", T.mirror_requests);
+   C.count("printed_bytes", T.printed_bytes); C.count("extra_units_and_module_units", T.units); C.count("nested_regions", T.regions); C.count("program_steps", T.steps); C.count("strings_at_allocator_threshold_lengths", T.threshold); C.count("lives_filling_string_pools_exactly", T.exact_fills); C.count("unit_names_read", T.unit_names_read); C.count("mirror_requests_at_both_ends_of_a_life", T.mirror_requests); C.count("requests_refused_during_a_life", T.refused);
    for (auto k : { "lexicon_lives", "factory_calls", "strings_interned", "string_pools_at_destruction", "printed_bytes", "extra_units_and_module_units", "nested_regions", "program_steps" }) C.need(k);
-   C.need("overlapping_lexicon_pairs"); C.need("lives_filling_string_pools_exactly"); C.need("unit_names_read"); C.need("mirror_requests_at_both_ends_of_a_life");
+   C.need("overlapping_lexicon_pairs"); C.need("lives_filling_string_pools_exactly"); C.need("unit_names_read"); C.need("mirror_requests_at_both_ends_of_a_life"); C.need("requests_refused_during_a_life");
    if (!valgrind_mode) { C.need("byte_accounting_checks"); C.need("lsan_checks"); }
 }
 
